@@ -187,6 +187,15 @@ func (r *Run) report(results []*FuncResult, d *Discharger) int {
 				inLedger, oldHash := r.inLedger(fr.Name, o.Name)
 				if inLedger && oldHash != fr.SSAHash {
 					path := r.writeReplayFile(o, fr, "obligation discharged on the unchanged tree no longer discharges after a change to "+fr.Name+": solver "+res.Status)
+					if drv := r.driverFor(o.Name); drv != nil {
+						// no counter-model, but a driver that searches for the failure on the real code
+						if p2, confirmed := r.replayWith(o, fr, path, drv); confirmed {
+							fmt.Printf("VIOLATION property=%s replay=%s\n", r.Prop, p2)
+							r.violations = append(r.violations, o.Name)
+							exit = 1
+							continue
+						}
+					}
 					fmt.Printf("VIOLATION property=%s replay=%s no-failing-input-found\n", r.Prop, path)
 					r.violations = append(r.violations, o.Name)
 					exit = 1
